@@ -262,6 +262,8 @@ class C06(Check):
             elif r.timeout or r.budget_hit:
                 hk = "%s|hang|%s" % (inv, "events" if r.budget_hit else "cpu")
                 extra["skey"] = hk
+                if not r.budget_hit:
+                    extra["trace_free"] = True
                 o.violate("%s|%s%s" % (hk, sig, ("/" + ",".join(sorted(set(w.split("@")[0] for w in aux_what)))) if aux_what else ""),
                           "no termination within the bound (%s): %s" % ("device-event budget" if r.budget_hit else "10 s CPU", where), **extra)
             elif r.signal == 25:
